@@ -323,7 +323,7 @@ def scan(fl, e, env, pred, out):
         sv = fl.ev(e['scrutinee'], env) if 'TryDesugar' not in str(e.get('source')) and e.get('source') != 'ForLoopDesugar' else None
         for a in e['arms']:
             env2 = dict(env)
-            for x in walk_pat_vars(a['pat']): env2[x] = ('payload', ('unknown', 'match'), x.split('#')[0])
+            for x in walk_pat_vars(a['pat']): env2[x] = ('payload', sv if sv is not None and sv[0] == 'call' else ('unknown', 'match'), x.split('#')[0])
             if sv is not None: fl.bind(a['pat'], sv, env2)
             if a.get('guard') is not None: scan(fl, a['guard'], env2, pred, out)
             scan(fl, a['body'], env2, pred, out)
